@@ -216,6 +216,11 @@ def check_reads(case, allow_tombstone_value=False):
                 R = ref.committed
             if R > ref.committed or R < ref.floor:
                 continue   # not a revision the node has reported readable / below the floor
+            if t[0] == "get" and rtok == "0" and o[1].isdigit() and int(o[1]) > ref.committed:
+                # Get at revision 0 reads the newest stored version; here it found one above the committed
+                # revision (an earlier write is still in flight) and says so in its header: not a read at a
+                # revision the node has reported as readable
+                continue
             tomb_written = any(v == TOMB for _, _, v in ref.writes)
             sig = "value==tombstone" if tomb_written else "snapshot-mismatch"
             if t[0] == "get":
